@@ -274,8 +274,70 @@ def served_case():
                            min_size=2, max_size=30),
         # how the limiter sits in front of the handlers: in a MiddlewareChain (as start_server builds it), handed to the
         # protocol directly (it has the same process_request interface), or in a chain behind the PyOpenSSL TLS layer
-        "wiring": st.sampled_from(["chain", "chain", "bare", "pyopenssl"]),
+        "wiring": st.sampled_from(["chain", "chain", "bare", "pyopenssl", "start_server"]),
     })
+
+
+def _served_by_start_server(case, ADDR):
+    """start_server with rate limiting switched on and no explicit RateLimitConfig: the documented defaults apply
+    (capacity 10, one token per second, retry hint 30 s)."""
+    import os
+    import shutil
+
+    import nauyaca.server.middleware as mwmod
+    from nauyaca.server.config import ServerConfig
+    from vlib import certs, scratch, stacks
+    from vlib.faketransport import FakeTransport
+
+    root = scratch.subdir("c10-root")
+    with open(os.path.join(root, "index.gmi"), "w") as f:
+        f.write("SERVED")
+    c = certs.get("rsa-a")
+    cap, rate = 10, Fraction(1)
+
+    async def scenario(loop):
+        old = mwmod.time
+        mwmod.time = _Clock(loop)
+        try:
+            cfg = ServerConfig(host="127.0.0.1", port=1965, document_root=root, certfile=c.cert_path, keyfile=c.key_path)
+            factory, sslctx, task = await stacks.capture_start_server(loop, cfg, enable_rate_limiting=True)
+            out = []
+            # the generated events, each sent five times over so that the default allowance of 10 is actually reached
+            for i, (dt, who, _beh, _titan) in enumerate(case["events"] * 5):
+                if dt and i % 5 == 0:
+                    await asyncio.sleep(dt)
+                tr = FakeTransport(loop, peername=(ADDR[who], 40000 + i))
+                tr.attach(factory())
+                tr.feed(b"gemini://localhost/\r\n")
+                await vloop.settle(4)
+                out.append((who, loop.time(), tr.written()))
+            task.cancel()
+            return out
+        finally:
+            mwmod.time = old
+
+    try:
+        out = vloop.run(scenario)
+    finally:
+        shutil.rmtree(root, ignore_errors=True)
+    served = {}
+    refusals = 0
+    for who, t, S in out:
+        if S.startswith(b"20 "):
+            served.setdefault(who, []).append(Fraction(t).limit_denominator(1000))
+        elif S == b"44 Rate limit exceeded. Retry after 30 seconds\r\n":
+            refusals += 1
+        else:
+            return viol("unexpected-answer", f"{S[:60]!r}", served=0, refusals=refusals, gone=0)
+    info = {"served": sum(len(v) for v in served.values()), "refusals": refusals, "gone": 0}
+    for who, ts in served.items():
+        for i in range(len(ts)):
+            for j in range(i, len(ts)):
+                if j - i + 1 > cap + rate * (ts[j] - ts[i]):
+                    return viol("window-bound-exceeded-at-the-handler",
+                                f"start_server with default rate limiting: address {who}: {j - i + 1} requests served within {float(ts[j] - ts[i])} s; "
+                                f"the default allowance is capacity {cap} + {rate}/s", **info)
+    return ok(**info)
 
 
 class _Plain:
@@ -298,6 +360,8 @@ def run_served(case: dict):
 
     cap, rate = case["capacity"], Fraction(case["rate"])
     ADDR = {"a": "192.0.2.1", "b": "2001:db8::2", "c": "2001:db8::3"}
+    if case.get("wiring") == "start_server":
+        return _served_by_start_server(case, ADDR)
 
     async def scenario(loop):
         old = mwmod.time
@@ -313,7 +377,10 @@ def run_served(case: dict):
             for i, (dt, who, beh, titan) in enumerate(case["events"]):
                 if dt:
                     await asyncio.sleep(dt)
-                req = f"titan://localhost/f{i};size=1;token={who}\r\nX".encode() if titan else f"gemini://localhost/{i}?{who}\r\n".encode()
+                if titan:
+                    req = (f"titan://localhost/f{i};size=0;token={who}\r\n" if i % 3 == 0 else f"titan://localhost/f{i};size=1;token={who}\r\nX").encode()
+                else:
+                    req = f"gemini://localhost/{i}?{who}\r\n".encode()
                 if wiring == "pyopenssl":
                     # the same chain behind the real PyOpenSSL TLS layer (peers stay until they are answered)
                     from vlib import memnet, stacks
